@@ -81,7 +81,7 @@ def programs():
 CLIENT_IDS = [0, b'c1', None, ('t', 3), '', b'']
 
 
-def make_inputs(profile, seed, typed_keys=False):
+def make_inputs(profile, seed, typed_keys=False, dup_ids=False):
   import jax
   import jax.numpy as jnp
   shared = {'w': jnp.asarray([1.0, 2.0 + seed % 3]), 'b': jnp.asarray(3, jnp.int32)}
@@ -94,7 +94,10 @@ def make_inputs(profile, seed, typed_keys=False):
     ci = {'scale': jnp.asarray(1.0 + i), 'key': jax.random.PRNGKey(10 + i), 'start': 200 + 20 * i}
     if typed_keys:
       ci['key'] = jax.random.key(10 + i)   # new-style typed key with the same key data
-    clients.append((CLIENT_IDS[i] if i < len(CLIENT_IDS) else b'k%d' % i, batches, ci))
+    cid = CLIENT_IDS[i] if i < len(CLIENT_IDS) else b'k%d' % i
+    if dup_ids and i >= 2 and i % 2 == 0:
+      cid = CLIENT_IDS[0]          # the same client id listed again (a cohort sampled with replacement)
+    clients.append((cid, batches, ci))
   return shared, clients
 
 
@@ -165,7 +168,19 @@ def fold(case):
   outs = set()
   for backend in case['backends']:
     nc = dict(case, backends=[backend])
-    shared, clients = make_inputs(profile, case.get('seed', 0), bool(case.get('typed_keys')))
+    shared, clients = make_inputs(profile, case.get('seed', 0), bool(case.get('typed_keys')), bool(case.get('dup_ids')))
+    if case.get('dup_ids'):
+      # ids repeat: results are matched as a multiset of (id, output values); one result per INPUT CLIENT
+      uniq = [(('u', i), b, ci) for i, (_, b, ci) in enumerate(clients)]
+      exp_u = sequential(prog, shared, uniq)
+      want = sorted((repr(clients[i][0]), [np.asarray(_np(x), np.float64).round(4).tolist() for x in leaves(exp_u[('u', i)][0])])
+                    for i in range(len(clients)))
+      f = backend_fn(pname, backend)
+      got = sorted((repr(g[0]), [np.asarray(_np(x), np.float64).round(4).tolist() for x in leaves(g[1])]) for g in f(shared, clients))
+      require(got == want, 'with repeated client ids the backend does not yield exactly one (correct) result per input client',
+              want, got, case=nc)
+      evals += 1
+      continue
     expect = sequential(prog, shared, clients)
     snaps = [_np(l, True) for l in leaves((shared, [(b, ci) for _, b, ci in clients]))]
     nbatches = [len(b) for _, b, _ in clients]
@@ -442,6 +457,27 @@ def selection_histories(case):
           raise Boom()
       except Boom:
         pass
+    elif step in ('keyboard_interrupt', 'system_exit', 'generator_exit'):
+      # a nested context left by an exception that is NOT an Exception subclass (Ctrl-C, sys.exit, an abandoned generator
+      # that holds the context open): the selection of the enclosing scope must be back afterwards
+      for cid, out in it:
+        got[cid] = float(out)
+      if step == 'generator_exit':
+        def holder():
+          with fec.for_each_client_backend('debug'):
+            yield 1
+            yield 2
+        g = holder()
+        next(g)
+        require(name_of() == 'debug', 'harness: the generator did not enter its context', case=case)
+        g.close()
+      else:
+        exc = {'keyboard_interrupt': KeyboardInterrupt, 'system_exit': SystemExit}[step]
+        try:
+          with fec.for_each_client_backend('debug'):
+            raise exc()
+        except exc:
+          pass
     else:
       for cid, out in it:
         got[cid] = float(out)
@@ -499,13 +535,17 @@ def plan(ctx):
   for prog in ('A', 'C', 'D'):
     fc.append({'prog': prog, 'profile': [2, 0, 1, 2, 1, 0, 2, 2, 1, 0, 1, 2, 0, 0, 2, 1, 1], 'backends': backends, 'seed': ctx.seed,
                'iter': True})
+  for profile in ([1, 0, 2, 1], [2, 1, 2, 0, 1, 2, 1]):
+    for prog in ('A', 'C'):
+      fc.append({'prog': prog, 'profile': profile, 'backends': backends, 'seed': ctx.seed, 'iter': False, 'dup_ids': True})
   for profile in ([1, 0, 2], [2, 2], [0]):
     for prog in ('A', 'B'):
       fc.append({'prog': prog, 'profile': profile, 'backends': backends, 'seed': ctx.seed, 'iter': False, 'typed_keys': True})
   # group by program so that each worker compiles few backends: chunk = contiguous cases
   ctx.pmap('fold', fc, chunk=max(4, len(fc) // 32))
   ctx.run('selection_histories', [{'made_under': m, 'consumed_under': c, 'scenario': sc} for m in (None, 'debug', 'jit')
-                                  for c in (None, 'debug', 'jit') for sc in ('exhaust', 'abandon', 'raise', 'set_between')])
+                                  for c in (None, 'debug', 'jit') for sc in ('exhaust', 'abandon', 'raise', 'set_between', 'keyboard_interrupt',
+                                                                              'system_exit', 'generator_exit')])
   p1 = enum_programs(1)
   p2 = p1 + enum_programs(2)
   tc = []
